@@ -844,6 +844,12 @@ class Collisions(OrderIndependence):
                         add("getitem:int", s, a, {"n": n, "k": 0})
                         add("getitem:int", s, a, {"n": n, "k": s[n] - 1})
                         add("getitem:list", s, a, {"n": n, "ks": sorted({0, s[n] - 1})})
+                        if s[n] > 1:
+                            # index lists that are NOT increasing (the renumbering of the kept subscripts must not
+                            # assume an ordered list: seed C06y used a binary search there): rotated, reversed, a pair
+                            add("getitem:list", s, a, {"n": n, "ks": list(range(1, s[n])) + [0]})
+                            add("getitem:list", s, a, {"n": n, "ks": list(range(s[n] - 1, -1, -1))})
+                            add("getitem:list", s, a, {"n": n, "ks": [s[n] - 1, 0]})
                         add("scale:vector", s, a, {"d": n, "v": [0 if k == 0 else k + 1 for k in range(s[n])]})
                     add("squash", s, a, {})
         # region writes with a non-zero scalar that GROW the shape (or add a trailing mode) AND cover stored entries
